@@ -64,7 +64,7 @@ theorem evalOps_denotes (root : Node) (strict : Bool) (ops : List Op) (el : Pos)
   rw [this, flatMapM_singleton]
 
 /-- `[:][:]` on a list of two lists: document order, level by level -/
-example : (match evalOps (.mk .list [] [] [.mk .list [] [] [.mk .scalar [] [] [], .mk .scalar [] [] []], .mk .list [] [] [.mk .scalar [] [] []]])
+example : (match evalOps (.mk .list (some []) [] [.mk .list (some []) [] [.mk .scalar (some []) [] [], .mk .scalar (some []) [] []], .mk .list (some []) [] [.mk .scalar (some []) [] []]])
       true [.slice none none none, .slice none none none] [] with
     | .ok l => l == [[0, 0], [0, 1], [1, 0]]
     | .error _ => false) = true := by
@@ -102,8 +102,8 @@ theorem evalOps_denotes_cor (root : Node) (strict : Bool) (ops : List Op) (el : 
 /-- the witness that the precedence matters, and that it is by depth first: a Dict whose first field
     is a Dict without `a` and whose second field is a List; `[:]/a` … on it -/
 def mixedTree : Node :=
-  .mk .map [] [] [.mk .map ['x'] ['x'] [.mk .list ['a'] ['a'] [.mk .scalar [] [] []]],
-                  .mk .map ['y'] ['y'] []]
+  .mk .map (some []) [] [.mk .map (some ['x']) ['x'] [.mk .list (some ['a']) ['a'] [.mk .scalar (some []) [] []]],
+                  .mk .map (some ['y']) ['y'] []]
 
 /-- `[:]/a[::0]` strict: the lookup of `a` fails below `y` (second in sequence order, depth 1), the
     zero step is reached below `x/a` (first in sequence order, depth 1 too): ValueError, the earlier
@@ -231,7 +231,7 @@ theorem single_spec (root : Node) (start : Pos) (path : Str) (strict : Bool) (op
     | p :: q :: r => rfl
 
 /-- `[:]` with `single=True, strict=True` on a Dict with two fields raises -/
-example : (match findResOf true true (denOps (.mk .map [] [] [.mk .scalar ['a'] ['a'] [], .mk .scalar ['b'] ['b'] []]) true
+example : (match findResOf true true (denOps (.mk .map (some []) [] [.mk .scalar (some ['a']) ['a'] [], .mk .scalar (some ['b']) ['b'] []]) true
       [.slice none none none] []) with
     | .err .lookup => true
     | _ => false) = true := by decide
@@ -243,7 +243,7 @@ theorem kidsAt_length (root : Node) (el : Pos) :
   unfold kidsAt nodeAt
   cases root.get? el <;> rfl
 
-theorem findName_eq (s : Str) : ∀ kids : List Node,
+theorem findName_eq (s : Option Str) : ∀ kids : List Node,
     findName s kids =
       (let i := kids.findIdx (fun k => k.key == s); if i < kids.length then some i else none)
   | [] => by simp [findName]
@@ -765,11 +765,11 @@ def C14_Full : Prop :=
     LookupError, the code (which cancels `nosuch/..` first) returns the start element -/
 theorem C14_full_fails : ¬ C14_Full := by
   intro h
-  have := h (.mk .map [] [] [.mk .scalar ['a'] ['a'] []]) true ⟨false, [.name ['n'], .up]⟩ [] (by decide)
+  have := h (.mk .map (some []) [] [.mk .scalar (some ['a']) ['a'] []]) true ⟨false, [.name ['n'], .up]⟩ [] (by decide)
   rw [evalOps_denotes _ _ _ _ (Or.inl (by decide))] at this
-  have h1 : denOps (.mk .map [] [] [.mk .scalar ['a'] ['a'] []]) true
+  have h1 : denOps (.mk .map (some []) [] [.mk .scalar (some ['a']) ['a'] []]) true
       (canonicalize (compile ⟨false, [.name ['n'], .up]⟩)) [] = .ok [[]] := by decide
-  have h2 : denote ⟨false, [.name ['n'], .up]⟩ (.mk .map [] [] [.mk .scalar ['a'] ['a'] []]) [] true
+  have h2 : denote ⟨false, [.name ['n'], .up]⟩ (.mk .map (some []) [] [.mk .scalar (some ['a']) ['a'] []]) [] true
       = .error .lookup := by decide
   rw [h1, h2] at this
   cases this
